@@ -91,3 +91,102 @@ package blob
 //@   ensures "model" implies(size >= 0, err == nil && b.bytes == old(b.bytes)[0:min(size, old(len(b.bytes)))])
 //@   ensures "inv" inv(b)
 //@   nopanic
+
+// ---- capability interfaces (assumed for foreign blobs) and the dispatch helpers ----
+
+//@ spec inRange(b Blob, start int64, end int64) := 0 <= start && start <= end && end <= blobLen(b)
+//@ spec isViewOf(r Blob, b Blob, start int64, end int64) := blobOK(r) && blobLen(r) == end-start && forall(i, 0, end-start, blobAt(r, i) == blobAt(b, start+i))
+
+//@ interface ViewBlob.View(start int64, end int64) (r Blob, err error)
+//@   requires blobOK(self) && !blobLocked(self)
+//@   ensures "range" iff(err == nil, inRange(self, start, end))
+//@   ensures "view" implies(err == nil, isViewOf(r, self, start, end))
+//@   ensures "nil-on-error" implies(err != nil, r == nil)
+
+//@ interface SliceBlob.Slice(start int64, end int64) (r Blob, err error)
+//@   requires blobOK(self) && !blobLocked(self)
+//@   ensures "range" iff(err == nil, inRange(self, start, end))
+//@   ensures "copy" implies(err == nil, isViewOf(r, self, start, end) && fresh(r))
+//@   ensures "nil-on-error" implies(err != nil, r == nil)
+
+//@ interface GrowBlob.Grow(offset int64) (err error)
+//@   requires blobOK(self) && !blobLocked(self)
+//@   modifies gint("blobLen", payload(self)), garr("blobAt", payload(self))
+//@   ensures "neg" implies(offset < 0, err != nil && blobLen(self) == old(blobLen(self)) && forall(i, 0, blobLen(self), blobAt(self, i) == old(blobAt(self, i))))
+//@   ensures "model" implies(offset >= 0, err == nil && blobLen(self) == old(blobLen(self)) + offset &&
+//@                     forall(i, 0, old(blobLen(self)), blobAt(self, i) == old(blobAt(self, i))) && forall(i, old(blobLen(self)), blobLen(self), blobAt(self, i) == 0))
+
+//@ interface TruncateBlob.Truncate(size int64) (err error)
+//@   requires blobOK(self) && !blobLocked(self)
+//@   modifies gint("blobLen", payload(self))
+//@   ensures "neg" implies(size < 0, err != nil && blobLen(self) == old(blobLen(self)))
+//@   ensures "model" implies(size >= 0, err == nil && blobLen(self) == min(size, old(blobLen(self))))
+
+//@ interface SetBlob.Set(src Blob, offset int64) (n int, err error)
+//@   requires blobOK(self) && !blobLocked(self) && blobOK(src) && !blobLocked(src)
+//@   modifies garr("blobAt", payload(self))
+//@   ensures "range" implies(offset < 0 || offset > blobLen(self), err != nil)
+//@   ensures "model" implies(err == nil, n == min(old(blobLen(src)), blobLen(self) - offset) && forall(i, 0, n, blobAt(self, offset+i) == old(blobAt(src, i))) &&
+//@                     forall(j, 0, blobLen(self), implies(j < offset || j >= offset+n, blobAt(self, j) == old(blobAt(self, j)))))
+//@   ensures "error-unchanged" implies(err != nil, n == 0 && forall(j, 0, blobLen(self), blobAt(self, j) == old(blobAt(self, j))))
+
+//@ func View(b Blob, start int64, end int64) (r Blob, err error)
+//@   props C19 C02
+//@   requires blobOK(b) && !blobLocked(b)
+//@   dispatch ViewBlob *Bytes
+//@   dispatch Blob *Bytes
+//@   ensures "range" iff(err == nil, inRange(b, start, end))
+//@   ensures "view" implies(err == nil, isViewOf(r, b, start, end))
+//@   ensures "native-bytes" implies(err == nil && isType(b, *Bytes), isType(r, *Bytes) && r.(*Bytes).bytes == b.(*Bytes).bytes[start:end] && r.(*Bytes).mu == b.(*Bytes).mu)
+//@   ensures "nil-on-error" implies(err != nil, r == nil)
+//@   nopanic
+
+//@ func Slice(b Blob, start int64, end int64) (r Blob, err error)
+//@   props C19
+//@   requires blobOK(b) && !blobLocked(b)
+//@   dispatch SliceBlob *Bytes
+//@   dispatch Blob *Bytes
+//@   ensures "range" iff(err == nil, inRange(b, start, end))
+//@   ensures "copy" implies(err == nil, isViewOf(r, b, start, end) && fresh(r))
+//@   ensures "nil-on-error" implies(err != nil, r == nil)
+//@   nopanic
+
+//@ func Grow(b Blob, offset int64) (err error)
+//@   props C19 C02
+//@   requires blobOK(b) && !blobLocked(b)
+//@   requires "size-bound" blobLen(b) + offset <= 1<<40
+//@   dispatch GrowBlob *Bytes
+//@   dispatch Blob *Bytes
+//@   modifies b.(*Bytes).bytes, b.(*Bytes).length, elems(b.(*Bytes).bytes), gint("blobLen", payload(b)), garr("blobAt", payload(b))
+//@   ensures "neg" implies(offset < 0 && implements(b, GrowBlob), err != nil && blobLen(b) == old(blobLen(b)) && forall(i, 0, blobLen(b), blobAt(b, i) == old(blobAt(b, i))))
+//@   ensures "native" implies(offset >= 0 && implements(b, GrowBlob), err == nil && blobLen(b) == old(blobLen(b)) + offset &&
+//@                      forall(i, 0, old(blobLen(b)), blobAt(b, i) == old(blobAt(b, i))) && forall(i, old(blobLen(b)), blobLen(b), blobAt(b, i) == 0))
+//@   ensures "ok" blobOK(b) && !blobLocked(b)
+//@   nopanic
+
+//@ func Truncate(b Blob, size int64) (err error)
+//@   props C19 C02
+//@   requires blobOK(b) && !blobLocked(b)
+//@   dispatch TruncateBlob *Bytes
+//@   dispatch Blob *Bytes
+//@   modifies b.(*Bytes).bytes, b.(*Bytes).length, gint("blobLen", payload(b))
+//@   ensures "neg" implies(size < 0 && implements(b, TruncateBlob), err != nil && blobLen(b) == old(blobLen(b)))
+//@   ensures "native" implies(size >= 0 && implements(b, TruncateBlob), err == nil && blobLen(b) == min(size, old(blobLen(b))) &&
+//@                      forall(i, 0, blobLen(b), blobAt(b, i) == old(blobAt(b, i))))
+//@   ensures "ok" blobOK(b) && !blobLocked(b)
+//@   nopanic
+
+//@ func Set(dest Blob, src Blob, offset int64) (n int, err error)
+//@   props C19 C02
+//@   requires blobOK(dest) && !blobLocked(dest) && blobOK(src) && !blobLocked(src)
+//@   dispatch SetBlob *Bytes
+//@   dispatch Blob *Bytes
+//@   modifies elems(dest.(*Bytes).bytes), garr("blobAt", payload(dest))
+//@   ensures "range" implies(implements(dest, SetBlob) && (offset < 0 || offset > blobLen(dest)), err != nil)
+//@   ensures "accepts" implies(implements(dest, SetBlob) && isType(dest, *Bytes) && 0 <= offset && offset <= blobLen(dest) && !(blobLen(dest) == 0 && old(blobLen(src)) > 0), err == nil)
+//@   ensures "model" implies(implements(dest, SetBlob) && err == nil, n == min(old(blobLen(src)), blobLen(dest) - offset) &&
+//@                     forall(i, 0, n, blobAt(dest, offset+i) == old(blobAt(src, i))) &&
+//@                     forall(j, 0, blobLen(dest), implies(j < offset || j >= offset+n, blobAt(dest, j) == old(blobAt(dest, j)))))
+//@   ensures "error-unchanged" implies(implements(dest, SetBlob) && err != nil, n == 0 && forall(j, 0, blobLen(dest), blobAt(dest, j) == old(blobAt(dest, j))))
+//@   ensures "len" blobLen(dest) == old(blobLen(dest)) && blobOK(dest) && !blobLocked(dest)
+//@   nopanic
